@@ -262,4 +262,6 @@ func checkC08(ctx *core.Ctx, rep *core.Report) {
 			rep.Inc("chains")
 		}
 	}
+	// Filter from every state of the registry, not only the start-up one (reghist.go)
+	regHistories(ctx, rep, "C08", map[string]bool{"filter": true}, regHistDepth(ctx))
 }
